@@ -272,8 +272,17 @@ type Evidence struct {
 	Violations  int                    `json:"violations"`
 }
 
+// OutDir is /verif, or $VERIF_OUT when a check is run against a scratch checkout (VERIF_REPO): evidence and replay
+// files of such runs must not overwrite the ones that describe /repo.
+func OutDir() string {
+	if d := os.Getenv("VERIF_OUT"); d != "" {
+		return d
+	}
+	return VerifDir
+}
+
 func WriteEvidence(e *Evidence) error {
-	dir := filepath.Join(VerifDir, "evidence")
+	dir := filepath.Join(OutDir(), "evidence")
 	os.MkdirAll(dir, 0755)
 	b, _ := json.MarshalIndent(e, "", " ")
 	return os.WriteFile(filepath.Join(dir, e.PropertyID+".json"), append(b, '\n'), 0644)
@@ -304,7 +313,7 @@ type Replay struct {
 
 func WriteReplay(r *Replay) string {
 	h := sha1.Sum([]byte(r.Engine + "|" + string(r.Cfg) + "|" + strings.Join(r.Path, ",") + "|" + r.Violation.Oracle))
-	dir := filepath.Join(VerifDir, "replays", r.Property)
+	dir := filepath.Join(OutDir(), "replays", r.Property)
 	os.MkdirAll(dir, 0755)
 	p := filepath.Join(dir, fmt.Sprintf("%x.json", h[:6]))
 	b, _ := json.MarshalIndent(r, "", " ")
